@@ -142,20 +142,23 @@ example : Real.sqrt (sqSum [0, 1] (rvInterp [0, 1] [1, 0] (1 / 3)))
 
 /-! ## 4. all spaces (arbitrarily nested compounds), by induction over `Space ℝ`
 
-Side conditions (Bool predicates on the space, `Proofs/SpaceInterpCompound.lean`):
-`noSO3Klein` — no SO(3) and no Klein bottle anywhere inside; `reparamOk` — additionally no discrete
-and no Mobius; `geodesic false` (model) — R^n, SO(2), time, torus and compounds/wrappers of these. -/
+Side conditions (Bool predicates on the space, `Proofs/SpaceInterpCompound*.lean`):
+`noKlein` — no Klein bottle anywhere inside; `noSO3Klein` — no SO(3) and no Klein bottle;
+`reparamOk` — additionally no discrete and no Mobius; `geodesic false` (model) — R^n, SO(2), time,
+torus and compounds/wrappers of these.  `unitQuats sp a` (a Prop): every SO(3) component of `a` is an
+exactly-unit quaternion (section 6). -/
 
-/-- [EX] t = 0 returns `from` exactly.  Covers rv, so2, time, disc, compound (nested), torus, sphere,
-mobius, wrap; excludes so3 and klein. -/
-theorem interp_zero (sp : Space ℝ) (a b : St ℝ) (hsp : noSO3Klein sp = true)
+/-- [EX] t = 0 returns `from` exactly.  Covers rv, so2, so3 (any quaternions), time, disc, compound
+(nested), torus, sphere, mobius, wrap; excludes klein only. -/
+theorem interp_zero (sp : Space ℝ) (a b : St ℝ) (hsp : noKlein sp = true)
     (hwa : wellTyped sp a = true) (hwb : wellTyped sp b = true) (hba : inBounds sp a = true) :
-    interpolate sp a b 0 = a := interpolate_zero sp a b hsp hwa hwb hba
+    interpolate sp a b 0 = a := interpolate_zero_so3 sp a b hsp hwa hwb hba
 
-example : interpolate se2 se2A se2B 0 = se2A := interp_zero _ _ _ se2_ok.1 se2A_wt se2B_wt se2A_inB
+example : interpolate se2 se2A se2B 0 = se2A := interp_zero _ _ _ se2_noKlein se2A_wt se2B_wt se2A_inB
 example : interpolate nested nestedA nestedB 0 = nestedA :=
-  interp_zero _ _ _ nested_ok.1 nestedA_wt nestedB_wt nestedA_inB
-example : interpolate mix mixA mixB 0 = mixA := interp_zero _ _ _ mix_ok mixA_wt mixB_wt mixA_inB
+  interp_zero _ _ _ nested_noKlein nestedA_wt nestedB_wt nestedA_inB
+example : interpolate mix mixA mixB 0 = mixA := interp_zero _ _ _ mix_noKlein mixA_wt mixB_wt mixA_inB
+example : interpolate se3 se3A se3B 0 = se3A := interp_zero _ _ _ se3_noKlein se3A_wt se3B_wt se3A_inB
 
 /-- [EX] t = 1 returns `to` exactly.  Covers rv, so2 (both branches), time, disc, compound (nested),
 torus, sphere, mobius, wrap; excludes so3 (only ±to) and klein. -/
@@ -219,5 +222,71 @@ example : dist nested nestedA (interpolate nested nestedA nestedB (1 / 3))
     = 1 / 3 * dist nested nestedA nestedB :=
   interp_dist_prop _ _ _ _ nested_ok.2.2 nestedA_wt nestedB_wt nestedA_inB nestedB_inB
     (by norm_num) (by norm_num)
+
+/-! ## 6. SO(3) (slerp as coded), exactly-unit quaternions
+
+The bounds predicate `so3InB` tolerates a norm error of 1e-9; the theorems below assume norm² = 1
+exactly (`unitQuats`), which is what real-arithmetic slerp preserves.  Proportional distance does
+not hold for SO(3) *as coded* (`arcLength` clamps to 0 above `1 - 1e-9`), so `interp_dist_prop`
+excludes it; re-parameterisation for SO(3) is compared against the implementation only. -/
+
+/-- [EX] SO(3): t = 0 returns `from` exactly (both branches; any quaternions) -/
+theorem so3_interp_zero (x1 y1 z1 w1 x2 y2 z2 w2 : ℝ) :
+    so3Interp x1 y1 z1 w1 x2 y2 z2 w2 0 = .so3 x1 y1 z1 w1 :=
+  so3Interp_zero x1 y1 z1 w1 x2 y2 z2 w2
+
+example : so3Interp (0 : ℝ) 0 0 1 1 0 0 0 0 = .so3 0 0 0 1 := so3_interp_zero _ _ _ _ _ _ _ _
+
+/-- [EX] SO(3): the result of interpolating two unit quaternions is a unit quaternion (any t) -/
+theorem so3_interp_unit (x1 y1 z1 w1 x2 y2 z2 w2 t : ℝ)
+    (h1 : x1 * x1 + y1 * y1 + z1 * z1 + w1 * w1 = 1)
+    (h2 : x2 * x2 + y2 * y2 + z2 * z2 + w2 * w2 = 1) :
+    ∃ x y z w, so3Interp x1 y1 z1 w1 x2 y2 z2 w2 t = .so3 x y z w ∧
+      x * x + y * y + z * z + w * w = 1 := so3Interp_unit t h1 h2
+
+-- the pair is orthogonal: theta = pi/2, the slerp branch (`Ex.se3_slerp_branch`)
+example : ∃ x y z w, so3Interp (0 : ℝ) 0 0 1 1 0 0 0 (1 / 3) = .so3 x y z w ∧
+    x * x + y * y + z * z + w * w = 1 := so3_interp_unit _ _ _ _ _ _ _ _ _ (by norm_num) (by norm_num)
+example : dblEps < arcLength (0 : ℝ) 0 0 1 1 0 0 0 := se3_slerp_branch
+
+/-- [EX] SO(3): the result satisfies the bounds as coded, for unit inputs -/
+theorem so3_interp_inbounds (x1 y1 z1 w1 x2 y2 z2 w2 t : ℝ)
+    (h1 : x1 * x1 + y1 * y1 + z1 * z1 + w1 * w1 = 1)
+    (h2 : x2 * x2 + y2 * y2 + z2 * z2 + w2 * w2 = 1) :
+    inBounds .so3 (so3Interp x1 y1 z1 w1 x2 y2 z2 w2 t) = true := so3Interp_inB t h1 h2
+
+example : inBounds .so3 (so3Interp (0 : ℝ) 0 0 1 1 0 0 0 (1 / 3)) = true :=
+  so3_interp_inbounds _ _ _ _ _ _ _ _ _ (by norm_num) (by norm_num)
+
+/-- [EX] SO(3): t = 1 returns `to` or `-to` (the same rotation) or, in the copy branch, a state at
+coded distance 0: `equalStates` holds, for unit `to` -/
+theorem so3_interp_one (x1 y1 z1 w1 x2 y2 z2 w2 : ℝ)
+    (h2 : x2 * x2 + y2 * y2 + z2 * z2 + w2 * w2 = 1) :
+    eqStates .so3 (so3Interp x1 y1 z1 w1 x2 y2 z2 w2 1) (.so3 x2 y2 z2 w2) = true := so3Interp_one h2
+
+example : eqStates .so3 (so3Interp (0 : ℝ) 0 0 1 1 0 0 0 1) (.so3 1 0 0 0) = true :=
+  so3_interp_one _ _ _ _ _ _ _ _ (by norm_num)
+
+/-- [EX] bounds, all spaces including SO(3) components with exactly-unit quaternions; excludes klein only -/
+theorem interp_inbounds_unit (sp : Space ℝ) (a b : St ℝ) (t : ℝ) (hsp : noKlein sp = true)
+    (hwa : wellTyped sp a = true) (hwb : wellTyped sp b = true)
+    (hba : inBounds sp a = true) (hbb : inBounds sp b = true)
+    (hua : unitQuats sp a) (hub : unitQuats sp b) (ht0 : 0 ≤ t) (ht1 : t ≤ 1) :
+    inBounds sp (interpolate sp a b t) = true :=
+  interpolate_inBounds_so3 sp a b t hsp hwa hwb hba hbb hua hub ht0 ht1
+
+example : inBounds se3 (interpolate se3 se3A se3B (1 / 3)) = true :=
+  interp_inbounds_unit _ _ _ _ se3_noKlein se3A_wt se3B_wt se3A_inB se3B_inB se3A_unit se3B_unit
+    (by norm_num) (by norm_num)
+
+/-- [EX] t = 1 gives a state equal to `to` as coded (`equalStates`), all spaces including SO(3)
+components (where the result is `±to`) with exactly-unit `to` quaternions; excludes klein only -/
+theorem interp_one_eq (sp : Space ℝ) (a b : St ℝ) (hsp : noKlein sp = true)
+    (hwa : wellTyped sp a = true) (hwb : wellTyped sp b = true) (hbb : inBounds sp b = true)
+    (hub : unitQuats sp b) : eqStates sp (interpolate sp a b 1) b = true :=
+  interpolate_one_eq sp a b hsp hwa hwb hbb hub
+
+example : eqStates se3 (interpolate se3 se3A se3B 1) se3B = true :=
+  interp_one_eq _ _ _ se3_noKlein se3A_wt se3B_wt se3B_inB se3B_unit
 
 end OmplModel.Props.C07
